@@ -264,6 +264,8 @@ End Env.
 
 Definition healthy : nat -> bool := fun _ => false.
 Definition fail_at (k : nat) : nat -> bool := fun n => Nat.eqb n k.
+(* a persistent fault (disk full): every call from the k-th on fails, close / flush included *)
+Definition fail_from (k : nat) : nat -> bool := fun n => Nat.leb k n.
 
 (* the state a save leaves behind, as a function of the initial state alone: the state
    update_header produces (= the initial state for a harmonised image) *)
